@@ -15,7 +15,7 @@ var Driver = core.Driver{ID: "C13", Level: "model_checking", Run: run, Replay: r
 
 const runeConsts = " RuneMax = 1114111\n HoleLo = 55296\n HoleHi = 57343\n Repl = 65533\n TU_FROM_START = TRUE\n NOTDEF_OWN = TRUE\n"
 
-var traceOpts = core.TLCOpts{Dir: "font", Module: "Trace_CMap", Cfg: "Trace_CMap.cfg", XssMB: 512}
+var traceOpts = core.TLCOpts{Dir: "font", Module: "Trace_CMap", Cfg: "Trace_CMap.cfg", XssMB: 512, XmxMB: 2500}
 
 // genJob is one run of Gen_CMap.
 type genJob struct {
@@ -34,7 +34,7 @@ func (j genJob) cfg(shard int) string {
 		}
 		return "FALSE"
 	}
-	return fmt.Sprintf("INIT Init\nNEXT Next\nCONSTANTS B = %d\n WITH_GAPS = TRUE\n%s CHUNK = 100\n Wide = %s\n Mode = %q\n SpName = %q\n Fam = %q\n Parts = %s\n"+
+	return fmt.Sprintf("INIT Init\nNEXT Next\nCONSTANTS B = %d\n WITH_GAPS = TRUE\n%s CHUNK = 100\n Wide = %s\n WideSpaces = {\"s1\", \"s2\", \"mix\", \"mixw\", \"s2w\", \"s3\"}\n Mode = %q\n SpName = %q\n Fam = %q\n Parts = %s\n"+
 		" MaxTop = %d\n MaxTotal = %d\n MaxDepth = %d\n NotdefOn = %s\n Shard = %d\n Shards = %d\n",
 		j.b, runeConsts, tf(j.wide), j.mode, j.sp, j.fam, j.parts, j.maxTop, j.maxTotal, j.maxD, tf(j.notdef), shard, j.shards)
 }
@@ -53,7 +53,7 @@ func genJobs(ctx *core.Ctx) []genJob {
 			}
 			jobs = append(jobs,
 				genJob{mode: "map", sp: "s1", fam: f, parts: single, b: 4, maxTop: 4, maxD: 1, notdef: true, shards: 1},
-				genJob{mode: "map", sp: "mix", fam: f, parts: single, b: 4, maxTop: 4, maxD: 1, notdef: true, shards: sh},
+				genJob{mode: "map", sp: "mix", fam: f, parts: single, b: 4, maxTop: 3, maxD: 1, notdef: true, shards: 1},
 				genJob{mode: "map", sp: "s2", fam: f, parts: single, b: 4, maxTop: 3, maxD: 1, notdef: true, shards: sh},
 				genJob{mode: "map", sp: "s1", fam: f, parts: chains, b: 4, maxTop: 0, maxTotal: 2, maxD: 3, notdef: true, shards: 1},
 			)
@@ -70,12 +70,11 @@ func genJobs(ctx *core.Ctx) []genJob {
 			c = 2
 		}
 		jobs = append(jobs,
-			genJob{mode: "map", sp: "s1", fam: f, parts: single, b: 4, maxTop: 4, maxD: 1, wide: true, notdef: true, shards: 1},
+			genJob{mode: "map", sp: "s1", fam: f, parts: single, b: 4, maxTop: 4, maxD: 1, notdef: true, shards: 1},
 			genJob{mode: "map", sp: "mix", fam: f, parts: single, b: 4, maxTop: 4, maxD: 1, wide: true, notdef: true, shards: 3 * c},
 			genJob{mode: "map", sp: "s2", fam: f, parts: single, b: 4, maxTop: 4, maxD: 1, notdef: true, shards: 3 * c},
-			genJob{mode: "map", sp: "mixw", fam: f, parts: single, b: 4, maxTop: 4, maxD: 1, notdef: false, shards: 8},
+			genJob{mode: "map", sp: "mixw", fam: f, parts: single, b: 4, maxTop: 4, maxD: 1, notdef: true, shards: 8},
 			genJob{mode: "map", sp: "s1", fam: f, parts: chains, b: 4, maxTotal: 3, maxD: 3, notdef: true, shards: 1 + 7*(c-1)},
-			genJob{mode: "map", sp: "mix", fam: f, parts: chains, b: 4, maxTotal: 2, maxD: 3, notdef: true, shards: c},
 		)
 	}
 	jobs = append(jobs,
@@ -175,7 +174,7 @@ func run(ctx *core.Ctx) error {
 	var mcWG sync.WaitGroup
 	mcRun := func(cfg, consts string, workers int) {
 		defer mcWG.Done()
-		_, err := ctx.MustHold(core.TLCOpts{Dir: "font", Module: "MC_CMap", Cfg: cfg, Workers: workers, XssMB: 512,
+		_, err := ctx.MustHold(core.TLCOpts{Dir: "font", Module: "MC_CMap", Cfg: cfg, Workers: workers, XssMB: 512, XmxMB: 4000,
 			Constants: consts, Timeout: ctx.Dur(6, 40)})
 		if err != nil && mcErr == nil {
 			mcErr = err
@@ -228,7 +227,7 @@ func runTable(ctx *core.Ctx, v *verdicts) error {
 			units = append(units, unit{j, s})
 		}
 	}
-	nk := ctx.Pick(2, 3)
+	nk := 2
 	var (
 		mu     sync.Mutex
 		first  error
@@ -259,7 +258,7 @@ func runTable(ctx *core.Ctx, v *verdicts) error {
 				return
 			}
 			cases, _, err := core.GenCases[genCase](ctx, core.TLCOpts{Dir: "font", Module: "Gen_CMap", CfgText: u.j.cfg(u.shard), Mode: "evaluate",
-				XssMB: 512, Timeout: ctx.Dur(6, 30), Quiet: true})
+				XssMB: 512, XmxMB: 3000, Timeout: ctx.Dur(6, 30), Quiet: true})
 			if err != nil {
 				fail(err)
 				return
@@ -469,12 +468,24 @@ func classify(r *record) (k, what string) {
 			if (want != nil) == p.OK && (want == nil || want.eq(p.V)) {
 				continue
 			}
-			// the answer went through U+FFFD although the map says otherwise
-			if want != nil && p.OK && len(p.V.T) > 0 && p.V.T[len(p.V.T)-1] == 0xfffd && len(p.C) > 0 && p.C[len(p.C)-1] > 0 {
+			// the answer went through U+FFFD although the map says otherwise:
+			// walk down the run of consecutive codes the wrong one belongs to
+			if want != nil && p.OK && len(p.V.T) > 0 && p.V.T[len(p.V.T)-1] == 0xfffd {
 				prev := append([]int(nil), p.C...)
-				prev[len(prev)-1]--
-				for _, m := range maps {
-					if w, ok := m[key(prev)]; ok && len(w.T) > 0 && w.T[len(w.T)-1] == 0xfffd {
+				for prev[len(prev)-1] > 0 {
+					prev[len(prev)-1]--
+					var w val
+					found := false
+					for _, m := range maps {
+						if x, ok := m[key(prev)]; ok {
+							w, found = x, true
+							break
+						}
+					}
+					if !found {
+						break
+					}
+					if len(w.T) > 0 && w.T[len(w.T)-1] == 0xfffd {
 						return "tu/NewToUnicodeFile/increment-form-through-invalid-rune",
 							fmt.Sprintf("NewToUnicodeFile writes a run whose values step through U+FFFD (after U+D7FF or U+10FFFF) as one incrementing bfrange: Lookup(<%x>) = %s, the map says %s",
 								toBytes(p.C), p.V, *want)
